@@ -14,7 +14,11 @@ if st:
     print("working tree of /repo is not clean:", st); sys.exit(2)
 r = sh("git -C /repo apply %s" % patch)
 if r.returncode != 0:
-    print("cannot apply:", r.stderr); sys.exit(2)
+    # written against an older HEAD (before later fix commits): try a three-way merge
+    r = sh("git -C /repo apply -3 %s" % patch)
+    if r.returncode != 0 or "with conflicts" in (r.stderr + r.stdout):
+        sh("git -C /repo reset -q --hard HEAD && git -C /repo clean -fdq")
+        print("cannot apply:", r.stderr); sys.exit(2)
 res = {}
 try:
     b = sh("cd /repo && GOFLAGS=-mod=mod GOPROXY=off GOSUMDB=off GOTOOLCHAIN=local go build ./... 2>&1")
@@ -26,7 +30,7 @@ try:
         res[p] = {"exit": out.returncode, "violations": [v[:300] for v in viol[:5]]}
         print(p, "exit", out.returncode, "|", (viol[0][:220] if viol else out.stdout.strip().split("\n")[-1][:200]))
 finally:
-    sh("git -C /repo checkout -- . && git -C /repo clean -fdq")
+    sh("git -C /repo reset -q --hard HEAD && git -C /repo clean -fdq")
     # the evidence written while the change was applied describes the changed tree: restore
     for p in props:
         sh("git -C /verif checkout -- evidence/%s.json" % p)
